@@ -140,11 +140,23 @@ func (g *treeGen) node(depth int) *node {
 	r := g.r
 	x := r.Intn(100)
 	switch {
-	case depth >= 4 || x < 55:
+	case depth >= 4 || x < 52:
 		return g.leaf()
-	case x < 80:
-		n := &node{typ: "F", cond: pick(r, []string{"header", "header", "url", "method"})}
+	case x < 58:
+		n := &node{typ: "P"}
+		k := r.Range(0, 3)
+		for i := 0; i < k; i++ {
+			n.kids = append(n.kids, g.node(depth+1))
+			n.prio = append(n.prio, r.Range(-1, 2))
+		}
+		n.scope = g.scope(n)
+		core.Count("priority-group")
+		return n
+	case x < 81:
+		n := &node{typ: "F", cond: pick(r, []string{"header", "header", "url", "method", "qs"})}
 		switch n.cond {
+		case "qs":
+			n.args = []string{pick(r, []string{"k", "j", "z"}), pick(r, []string{"", "v", "w", "1"})}
 		case "header":
 			n.args = []string{pick(r, hnames), pick(r, hvalues)}
 		case "url":
